@@ -106,6 +106,7 @@ fn env_from_json(v: &Value) -> Option<Env> {
 }
 
 fn run(ctx: &RunCtx) {
+    crate::behave::ALLOW_LUAU_ESCAPES.store(ctx.avoid("unicode-escape-not-lua51"), std::sync::atomic::Ordering::Relaxed);
     let avoid_prefix = ctx.avoid("inject-prefix-shadowing");
     let avoid_mode_obj = ctx.avoid("inject-require-mode-object");
     let n = ctx.tier.pick(15_000, 300_000);
